@@ -114,6 +114,16 @@ def gen_case(prop, tier, seed, stream, k):
             if cand not in [x.name for x in m.cols + m.rows]:
                 o.name = cand
                 repaired = repaired or cand in REPAIR_NAMES
+        if rnd.random() < 0.2 and len(m.cols) >= 2:
+            # a column with a lower bound only, directly followed by a column called free (inf, infinity) that has bounds of its own:
+            # after "3 <= x" the reader looks on, across the line end, for an upper bound or the keyword free
+            i = rnd.randrange(len(m.cols) - 1)
+            word = rnd.choice(["free", "Free", "FREE", "free", "inf", "Infinity"])
+            if word not in [x.name for x in m.cols + m.rows]:
+                m.cols[i].lo, m.cols[i].up = F(rnd.randint(1, 9)), INF
+                m.cols[i + 1].name = word
+                m.cols[i + 1].lo, m.cols[i + 1].up = rnd.choice([(F(0), F(4)), (NINF, INF), (NINF, F(7)), (F(-2), F(5))])
+                repaired = True
         if rnd.random() < 0.35:
             # a name the writer has to replace (the replacement is built from the item's index) next to a legal-looking name that
             # is exactly that index in decimal: the two must still come out different
